@@ -33,6 +33,13 @@ CLAIMED = {
          "Trusted: go/ssa, symgo, regex VM model, z3. Outside: floats, comments, call reordering, whole-file idempotence, "
          "include-expanded rendering, wider integers. One known finding (non-UTF-8 literal bytes) is reported as KNOWN-FINDING.",
          "DESIGN.md §4 C09"),
+ "C15": ("Partial, clause by clause: for modifiers, bindings/expressions, calls, stages and pipelines two instances with the same shape "
+         "and independent symbolic leaves (names, values, kinds, flags, types, dims, out names) are compared by the real EquivalentTo/"
+         "Equals/equal code; the solver shows the verdict equals a leaf-wise oracle written from the doc comments in both directions "
+         "(refused iff a semantic leaf differs; cosmetic leaves ignored).",
+         "Trusted: go/ssa, symgo, z3, the oracles. AST shapes restricted to what the compiler produces. Outside: floats, map/split/merge "
+         "expressions, _invocation byte comparison, the pipestance lock.",
+         "DESIGN.md §4 C15"),
  "C16": ("StringExp values of up to 3 (4) arbitrary bytes, two-key typed maps with arbitrary 1-2 byte keys under every Go map iteration "
          "order, booleans/null/empty collections and integers below 10^3 (10^4) are encoded by the real EncodeJSON/MarshalJSON; an "
          "RFC 8259 string decoder in the harness is the oracle. Partial: scalar and collection encoders (call text -> JSON direction).",
